@@ -28,6 +28,54 @@ Proof.
     pose proof (H (S t) Ht) as E. cbn [Nat.eqb] in E. replace (S t - 1)%nat with t in E by lia. rewrite <- E. ring.
 Qed.
 
+(* get_stock_balance, entry by entry: whole-period net inflow minus the change of the stock *)
+Theorem stock_balance_entry (dt stock inflow outflow : list F) t :
+  (t < length stock)%nat -> length dt = length stock -> length inflow = length stock -> length outflow = length stock ->
+  nthF (stock_balance F fO fmul fsub true dt stock inflow outflow) t
+  = (nthF inflow t - nthF outflow t) * nthF dt t - (nthF stock t - (if Nat.eqb t 0 then fO else nthF stock (t - 1)%nat)).
+Proof.
+  intros Ht Hd Hi Ho. unfold stock_balance, to_whole_period, diff_prepend0.
+  assert (Lnet : length (map2 fsub inflow outflow) = length stock).
+  { rewrite map2_length. rewrite Hi, Ho. apply Nat.min_id. }
+  rewrite (nthF_map2 F fO); [| rewrite map2_length, Lnet, Hd, Nat.min_id; exact Ht | rewrite (tabulate_length); exact Ht].
+  rewrite (nthF_map2 F fO); [| rewrite Lnet; exact Ht | rewrite Hd; exact Ht].
+  rewrite (nthF_map2 F fO); [| rewrite Hi; exact Ht | rewrite Ho; exact Ht].
+  unfold Stocks.nthF at 4. rewrite (nth_tabulate _ _ t fO Ht). reflexivity.
+Qed.
+
+(* the self-check is zero at a step exactly when the balance identity holds there: a stock that satisfies the identity at every step
+   is accepted at any threshold, and a stock whose entry at the last step is off by delta shows exactly -delta there *)
+Corollary stock_balance_zero_iff (dt stock inflow outflow : list F) t :
+  (t < length stock)%nat -> length dt = length stock -> length inflow = length stock -> length outflow = length stock ->
+  (nthF (stock_balance F fO fmul fsub true dt stock inflow outflow) t = fO
+   <-> nthF stock t - (if Nat.eqb t 0 then fO else nthF stock (t - 1)%nat) = nthF dt t * (nthF inflow t - nthF outflow t)).
+Proof.
+  intros Ht Hd Hi Ho. rewrite (stock_balance_entry dt stock inflow outflow t Ht Hd Hi Ho). split; intros E.
+  - assert (X : nthF stock t - (if Nat.eqb t 0 then fO else nthF stock (t - 1)%nat)
+               = (nthF inflow t - nthF outflow t) * nthF dt t - ((nthF inflow t - nthF outflow t) * nthF dt t - (nthF stock t - (if Nat.eqb t 0 then fO else nthF stock (t - 1)%nat)))) by ring.
+    rewrite X, E. ring.
+  - rewrite E. ring.
+Qed.
+
+(* a stock that satisfies the balance at step t, changed by delta at that step (the step before left alone): the self-check shows
+   exactly -delta there, so it is rejected as soon as delta exceeds the threshold *)
+Corollary stock_balance_shows_a_perturbation (dt stock stock' inflow outflow : list F) t (delta : F) :
+  (t < length stock)%nat -> length stock' = length stock ->
+  length dt = length stock -> length inflow = length stock -> length outflow = length stock ->
+  nthF stock t - (if Nat.eqb t 0 then fO else nthF stock (t - 1)%nat) = nthF dt t * (nthF inflow t - nthF outflow t) ->
+  nthF stock' t = nthF stock t + delta -> (t <> 0%nat -> nthF stock' (t - 1)%nat = nthF stock (t - 1)%nat) ->
+  nthF (stock_balance F fO fmul fsub true dt stock' inflow outflow) t = fO - delta.
+Proof.
+  intros Ht Hl Hd Hi Ho Hbal Ht' Hprev.
+  rewrite (stock_balance_entry dt stock' inflow outflow t); try (rewrite Hl; assumption).
+  rewrite Ht'. destruct (Nat.eqb_spec t 0) as [E|E].
+  - transitivity ((nthF inflow t - nthF outflow t) * nthF dt t - (nthF stock t - fO) - delta); [ring|].
+    rewrite Hbal. ring.
+  - rewrite (Hprev E).
+    transitivity ((nthF inflow t - nthF outflow t) * nthF dt t - (nthF stock t - nthF stock (t - 1)%nat) - delta); [ring|].
+    rewrite Hbal. ring.
+Qed.
+
 Variables (n : nat) (dt inflow : list F) (sf : list (list F)).
 Hypothesis Hdt : length dt = n.
 Hypothesis Hin : length inflow = n.
@@ -41,6 +89,23 @@ Theorem idsm_stock_is_cumulated_net_inflow t : (t < n)%nat ->
 Proof.
   intros Ht. apply (telescoping (fun tau => nthF (o_stock F r) tau) _ n); [|exact Ht].
   intros tau Htau. apply (balance_idsm F fO fI fadd fmul fsub fopp fdiv finv Fth n dt inflow sf Hdt Hin lower tau Htau (dt_nonzero tau Htau)).
+Qed.
+
+
+Lemma idsm_lengths : length (o_stock F r) = n /\ length (o_outflow F r) = n.
+Proof.
+  unfold idsm, compute_outflow, row_sums, cohort_table. cbn [o_stock o_outflow]. split.
+  - rewrite map_length. apply tabulate_length.
+  - rewrite map_length, map2_length, tabulate_length, Hdt. apply Nat.min_id.
+Qed.
+
+(* get_stock_balance of a computed inflow-driven stock is zero at every step: the self-check accepts it at any threshold *)
+Theorem idsm_self_check_is_zero t : (t < n)%nat ->
+  nthF (stock_balance F fO fmul fsub true dt (o_stock F r) inflow (o_outflow F r)) t = fO.
+Proof.
+  intros Ht. destruct idsm_lengths as [Ls Lo].
+  apply stock_balance_zero_iff; rewrite ?Ls; auto.
+  apply (balance_idsm F fO fI fadd fmul fsub fopp fdiv finv Fth n dt inflow sf Hdt Hin lower t Ht (dt_nonzero t Ht)).
 Qed.
 
 End G.
